@@ -546,6 +546,40 @@ pub fn run_writer(sid: &str, tag: &Value, pre: &[u8], ps: &[Payload], out: &mut 
     n
 }
 
+/// One writer created with `Writer::default()` and kept across all writes (never re-wrapped).
+pub fn run_writer_persistent(sid: &str, tag: &Value, ps: &[Payload], out: &mut dyn Write) -> usize {
+    let mut n = 0;
+    writeln!(out, "{}", json!({"fam": "writer", "sid": sid, "op": "WDefault", "tag": tag})).unwrap();
+    n += 1;
+    let mut w = Some(Writer::default());
+    for p in ps {
+        let mut writer = w.take().unwrap();
+        let r = guard(|| {
+            let r = with_dyn(p, &mut |d| d.write_to(&mut writer));
+            (r, writer)
+        });
+        match r {
+            Ok((Ok(count), writer)) => {
+                w = Some(writer);
+                writeln!(out, "{}", json!({"sid": sid, "op": "WWriteP", "p": payload_json(p), "r": {"k": "ok", "n": count}})).unwrap();
+            }
+            Ok((Err(e), writer)) => {
+                w = Some(writer);
+                writeln!(out, "{}", json!({"sid": sid, "op": "WWriteP", "p": payload_json(p), "r": {"k": "err", "ek": ek(&e)}})).unwrap();
+            }
+            Err(m) => {
+                writeln!(out, "{}", json!({"sid": sid, "op": "WWriteP", "p": payload_json(p), "r": panic_value(&m)})).unwrap();
+                n += 1;
+                return n;
+            }
+        }
+        n += 1;
+    }
+    let fin = w.take().unwrap().finish();
+    writeln!(out, "{}", json!({"sid": sid, "op": "WFinish", "fin": rl(&fin)})).unwrap();
+    n + 1
+}
+
 pub fn run_writer_scenario(v: &Value, idx: usize, out: &mut dyn Write) -> usize {
     let sid = v["sid"].as_str().map(|s| s.to_string()).unwrap_or(format!("scn-{}", idx));
     let pre = unrl(&v["pre"]);
@@ -580,6 +614,12 @@ pub fn random_addr(rng: &mut Rng, fam: u64) -> v2::Addresses {
                 }
             }
             if rng.chance(1, 10) { let (l, r) = b.split_at_mut(16); r[..16].copy_from_slice(l); }
+            if rng.chance(1, 5) {
+                let prefixes: [&[u8]; 8] = [&[0xfe, 0x80, 0x00, 0x04], &[0xfe, 0x80], &[0xff, 0x02], &[0x20, 0x02], &[0x00, 0x64, 0xff, 0x9b], &[0xfc, 0x00], &[0x20, 0x01, 0x0d, 0xb8], &[0xfe, 0xc0]];
+                let off = if rng.chance(1, 2) { 0 } else { 16 };
+                let p = *rng.pick(&prefixes);
+                b[off..off + p.len()].copy_from_slice(p);
+            }
             let s: [u8; 16] = b[..16].try_into().unwrap();
             let d: [u8; 16] = b[16..32].try_into().unwrap();
             v2::Addresses::IPv6(v2::IPv6::new(s, d, u16::from_be_bytes([b[32], b[33]]), u16::from_be_bytes([b[34], b[35]])))
@@ -1039,6 +1079,21 @@ pub fn generate_writer(name: &str, count: usize, rng: &mut Rng, out: &mut dyn Wr
                     n += run_writer(&format!("wbig-{}", i), &json!({"g": "wbig"}), &pre, &[p, Payload::Type(Type::NoOp)], out);
                     i += 1;
                 }
+            }
+        }
+        // one `Writer::default()` kept across several writes, small and across the 65536 mark
+        "wpersist" => {
+            for i in 0..count {
+                let mut ps: Vec<Payload> = Vec::new();
+                if i % 3 == 0 {
+                    let fill = rng.next() as u8 | 1;
+                    ps.push(Payload::Slice(vec![fill; 65535]));
+                    ps.push(Payload::Slice(vec![fill; *rng.pick(&[0usize, 1, 2, 15, 16, 17])]));
+                }
+                for _ in 0..rng.range(2, 5) {
+                    ps.push(random_payload(rng, false));
+                }
+                n += run_writer_persistent(&format!("wpersist-{}", i), &json!({"g": "wpersist"}), &ps, out);
             }
         }
         // around the writer's size limit (reported, not gating)
